@@ -517,6 +517,42 @@ func (w *nodeWorld) buildTxs(a *app.Haqq, ctx sdk.Context, tok string) [][]byte 
 		w.nextProp++
 		tx1 := w.cosmosTx(a, ctx, 0, sub)
 		return [][]byte{tx1, nil, []byte(fmt.Sprintf("vote:%d", id))}
+	case "goverc20":
+		// governance switches the ERC20 module off (f[1] = 0) or on
+		p := a.Erc20Keeper.GetParams(ctx)
+		p.EnableErc20 = f[1] == "1"
+		upd := &erc20types.MsgUpdateParams{Authority: authtypes.NewModuleAddress(govtypes.ModuleName).String(), Params: p}
+		sub, err := govv1.NewMsgSubmitProposal([]sdk.Msg{upd}, sdk.NewCoins(sdk.NewCoin(utils.BaseDenom, sdkmath.NewInt(1_000_000))), w.acc(0).String(), "", "erc20", "erc20 switch")
+		if err != nil {
+			panic(err)
+		}
+		id := w.nextProp
+		w.nextProp++
+		return [][]byte{w.cosmosTx(a, ctx, 0, sub), nil, []byte(fmt.Sprintf("vote:%d", id))}
+	case "sendm":
+		// a bank MsgSend to a module account
+		return [][]byte{w.cosmosTx(a, ctx, ki(1), banktypes.NewMsgSend(w.acc(ki(1)), authtypes.NewModuleAddress(f[2]), coin(f[3])))}
+	case "govfail":
+		// a proposal whose first message changes the EVM chain config (London and the later forks moved out of reach) and
+		// whose second message cannot be executed (the governance account has no such funds): the proposal fails as a
+		// whole and the stored parameters stay as they were
+		p := a.EvmKeeper.GetParams(ctx)
+		far := sdkmath.NewInt(1 << 62)
+		p.ChainConfig.LondonBlock, p.ChainConfig.ArrowGlacierBlock, p.ChainConfig.GrayGlacierBlock = &far, &far, &far
+		p.ChainConfig.MergeNetsplitBlock, p.ChainConfig.ShanghaiBlock, p.ChainConfig.CancunBlock = &far, &far, &far
+		gov := authtypes.NewModuleAddress(govtypes.ModuleName)
+		upd := &evmtypes.MsgUpdateParams{Authority: gov.String(), Params: p}
+		bad := banktypes.NewMsgSend(gov, w.acc(0), sdk.NewCoins(sdk.NewCoin(utils.BaseDenom, sdkmath.NewIntWithDecimal(1, 30))))
+		sub, err := govv1.NewMsgSubmitProposal([]sdk.Msg{upd, bad}, sdk.NewCoins(sdk.NewCoin(utils.BaseDenom, sdkmath.NewInt(1_000_000))), w.acc(0).String(), "", "fail", "a proposal that fails half way")
+		if err != nil {
+			panic(err)
+		}
+		id := w.nextProp
+		w.nextProp++
+		return [][]byte{w.cosmosTx(a, ctx, 0, sub), nil, []byte(fmt.Sprintf("vote:%d", id))}
+	case "efcode":
+		// CREATE of a contract whose runtime code starts with 0xEF: refused from London on (EIP-3541), deployed before
+		return [][]byte{w.ethTx(a, ctx, ki(1), nil, nil, common.FromHex("0x60ef60005360016000f3"), 200_000, 0)}
 	case "pc":
 		to := common.HexToAddress(nodePCAddr(f[2]))
 		var in []byte
@@ -573,7 +609,12 @@ func nodeGen(r *rand.Rand, tier string, prop string) []Case {
 				case x >= 14:
 					txs = append(txs, fmt.Sprintf("dao.%d.%d", k, 1+r.Intn(1_000_000)))
 				case x < 2:
-					txs = append(txs, fmt.Sprintf("send.%d.%d.%d", k, r.Intn(nodeKeys+3), 1+r.Intn(1_000_000)))
+					if r.Intn(3) == 0 {
+						m := pick(r, []string{"not_bonded_tokens_pool", "bonded_tokens_pool", "distribution", "fee_collector", "gov"})
+						txs = append(txs, fmt.Sprintf("sendm.%d.%s.%d", k, m, 1+r.Intn(1_000_000)))
+					} else {
+						txs = append(txs, fmt.Sprintf("send.%d.%d.%d", k, r.Intn(nodeKeys+3), 1+r.Intn(1_000_000)))
+					}
 				case x < 4:
 					if r.Intn(4) == 0 {
 						m := pick(r, []string{"not_bonded_tokens_pool", "bonded_tokens_pool", "distribution", "fee_collector", "gov", "evm"})
@@ -662,6 +703,16 @@ func nodeGen(r *rand.Rand, tier string, prop string) []Case {
 					txs = append(txs, fmt.Sprintf("badnonce.%d", k))
 				}
 			}
+			if b == swapAt+1 && (prop == "C01" || prop == "C20") {
+				txs = append(txs, "govfail")
+			}
+			if b == swapAt+1 && prop == "C15" && i%2 == 0 {
+				// half of the C15 worlds: governance switches the ERC20 module off
+				txs = append(txs, "goverc20.0")
+			}
+			if b > swapAt+3 && (prop == "C01" || prop == "C20") && r.Intn(2) == 0 {
+				txs = append(txs, fmt.Sprintf("efcode.%d", r.Intn(nodeKeys)))
+			}
 			if b == swapAt {
 				// swap: the inactive extension becomes active, the other one of the pair inactive
 				other := "p256"
@@ -678,7 +729,12 @@ func nodeGen(r *rand.Rand, tier string, prop string) []Case {
 			c = append(c, fmt.Sprintf("blk # dt=%d%s txs=%s", 4+r.Intn(5), ev, strings.Join(txs, "|")))
 			switch prop {
 			case "C20":
-				if r.Intn(3) == 0 || b == swapAt+2 || b == swapAt+3 {
+				if r.Intn(3) == 0 || b == swapAt+2 || b == swapAt+3 || b == swapAt+4 {
+					c = append(c, "restart")
+				}
+			case "C01":
+				// a replica that joins later from a copy of the state (state sync / snapshot) instead of from genesis
+				if b == swapAt+4 {
 					c = append(c, "restart")
 				}
 			case "C19":
@@ -703,7 +759,7 @@ func nodeGen(r *rand.Rand, tier string, prop string) []Case {
 			c = append(c, "export")
 		}
 		// after the history: calls that touch both extensions of the swapped pair
-		c = append(c, "blk # dt=6 txs=pc.4.bech32|pc.5.p256|eth.2.7")
+		c = append(c, "blk # dt=6 txs=pc.4.bech32|pc.5.p256|eth.2.7|efcode.3")
 		c = append(c, "blk # dt=6 txs=pc.1.p256|pc.2.bech32")
 		out = append(out, c)
 	}
@@ -859,9 +915,22 @@ func c01Exec(c Case) (outs []string, fails []Failure, tags []string) {
 		}
 		return []string{"ok"}, fails, tags
 	}
-	run, outs, tags := nodeExecHistory(c, nil, nil)
+	run, outs, tags := nodeExecHistory(c, nil, func(run *nodeRun, what string, i int) {
+		if what == "restart" {
+			run.restarts = append(run.restarts, nodeRestart{after: len(run.blocks), db: nodeCopyDB(run.dbA), hash: hex.EncodeToString(run.a.LastCommitID().Hash)})
+		}
+	})
 	if run.w == nil || len(run.blocks) == 0 {
 		return
+	}
+	for _, rs := range run.restarts {
+		late := nodeNewApp(rs.db)
+		_ = late.Info(abci.RequestInfo{})
+		tags = append(tags, "late-replica-compared")
+		if d := diffBlocks(run.results[rs.after:], run.w.replay(late, run.blocks[rs.after:]), int64(rs.after+2)); len(d) > 0 {
+			fails = append(fails, Failure{Signature: "C01:late-replica-diverges", What: fmt.Sprintf("a replica that joined from a copy of the state after block %d disagrees with the one that ran from genesis:\n  %s", rs.after+1, strings.Join(d, "\n  ")), Case: c})
+			return
+		}
 	}
 	// a second, independently constructed replica (built after the first one has run), same genesis, same blocks —
 	// on a host in another time zone (the worlds start at New Year of a leap year, where the civil year of a block
